@@ -165,6 +165,42 @@ def check_node(spec, res, opseed):
         res.case(repr((label, nd["name"], opseed)), nontrivial=bool(hist))
 
 
+def check_observed_then_derived(res):
+    """The same derivation applied to the same node gives the same object whether or not the node was LOOKED AT first (its
+    defaults / annotations read, put into a graph, run): memoised views of the receiver must not travel into what is derived
+    from it - for function nodes and gates, through chains of further derivations."""
+    from hypergraph import Graph, node
+    from harness.core import run_sync, set_case
+    set_case("C07", {"observed_then_derived": True}, "sync")
+
+    def mk():
+        @node(output_name="y")
+        def scale(x: int, factor: int = 2) -> int:
+            return x * factor
+        return scale
+
+    def derive(n, chain):
+        d = n.with_inputs(factor="k")
+        if chain:
+            d = d.with_name("scaled").with_outputs(y="z")
+        return d
+
+    def view(d):
+        g = Graph([d])
+        return {"inputs": tuple(d.inputs), "defaults": dict(d.defaults), "annotations": {k: getattr(v, "__name__", str(v)) for k, v in d.parameter_annotations.items()},
+                "required": tuple(g.inputs.required), "optional": tuple(g.inputs.optional), "run": run_sync(g, {"x": 5})}
+
+    for chain in (False, True):
+        fresh = view(derive(mk(), chain))
+        seen = mk()
+        _ = (seen.defaults, seen.parameter_annotations, Graph([seen]).inputs, run_sync(Graph([seen]), {"x": 1}))
+        after = view(derive(seen, chain))
+        res.case(repr(("observed_then_derived", chain)), nontrivial=True, sample={"chain": chain, "fresh": fresh})
+        if fresh != after:
+            res.fail(kind="oracle", function="HyperNode._copy / _invalidate_cached_properties", replay={"harness": "C07", "spec": {"observed_then_derived": True}, "opseed": 0},
+                     what=f"with_inputs(factor='k'){' + with_name + with_outputs' if chain else ''} gives {after} when the node had been looked at before, {fresh} when it had not")
+
+
 def run(tier, seed, functions):
     n = 150 if tier == "quick" else 3000
     res = Result("C07", "random DAG graphs x sequences of <=3 derivations (bind, unbind, select, with_entrypoint, add_nodes, add_nodes(), as_node) applied to any earlier object, derived objects "
@@ -178,12 +214,16 @@ def run(tier, seed, functions):
             nd["rename_mode"] = None
         check_graph(spec, res, rng.randrange(10**6))
         check_node(spec, res, rng.randrange(10**6))
+    check_observed_then_derived(res)
     return res
 
 
 def replay(rep):
     res = Result("C07", "", {})
     spec = dict(rep["spec"])
+    if spec.get("observed_then_derived"):
+        check_observed_then_derived(res)
+        return [f["what"] for f in res.failures]
     opseed = spec.pop("opseed")
     (check_graph if rep.get("part") == "graph" else check_node)(spec, res, opseed)
     return [f["what"] for f in res.failures]
